@@ -2,6 +2,8 @@ package rules
 
 import (
 	"go/token"
+	"go/types"
+	"strings"
 
 	"golang.org/x/tools/go/ssa"
 
@@ -138,5 +140,159 @@ func ruleReaderSegment(c *eng.Ctx) {
 			}
 		}
 		c.Check(ok, "a parked committed reader resumes at its old watermark + 1", p.Pos(fn.Pos()), "findSegment(segments, r.hw+1) and findEntry(r.hw+1), r.hw read before it is updated", "the committed reader that waited beyond the watermark does not resume at (old watermark + 1): committed messages are skipped or delivered twice")
+	}
+}
+
+// ruleScannerEntries (R01.10): the index scanners hand out a pointer to ONE entry object that the next Scan overwrites
+// (indexScanner.entry / reverseIndexScanner.entry). A caller may use the entry until its next Scan call but must not
+// retain it across iterations: a list of such pointers is a list of copies of the last entry, and a segment index
+// written from it maps every offset to the last message.
+func ruleScannerEntries(c *eng.Ctx) {
+	p := c.P
+	type src struct {
+		ref string
+		idx int
+	}
+	srcs := []src{{cl + "indexScanner.Scan", 0}, {cl + "reverseIndexScanner.Scan", 0}, {cl + "segmentScanner.Scan", 1}, {cl + "reverseSegmentScanner.Scan", 1}}
+	n := 0
+	for _, fn := range p.Funcs {
+		if fn.Pkg == nil || !c.P.IsModuleFunc(fn) {
+			continue
+		}
+		eng.Instrs(fn, func(in ssa.Instruction) {
+			call, ok := in.(*ssa.Call)
+			if !ok {
+				return
+			}
+			ref := eng.CalleeRef(&call.Call)
+			want := -1
+			for _, s := range srcs {
+				if s.ref == ref {
+					want = s.idx
+				}
+			}
+			if want < 0 || call.Referrers() == nil {
+				return
+			}
+			// the scanners' own wrappers pass the entry through (segmentScanner.Scan returns indexScanner's entry)
+			if strings.HasSuffix(fn.Name(), "Scan") && fn.Signature.Recv() != nil {
+				return
+			}
+			for _, r := range *call.Referrers() {
+				ex, ok := r.(*ssa.Extract)
+				if !ok || ex.Index != want {
+					continue
+				}
+				n++
+				how := retainedAcrossIterations(ex, 0)
+				c.Check(how == "", "entry from "+shortRef(ref)+" in "+fn.Name(), c.Pos(call), "used before the next Scan, not accumulated", "the *entry returned by "+shortRef(ref)+" is "+how+", but the scanner re-uses that one object for every Scan: all retained pointers end up describing the last entry scanned (an index written from them maps every offset of the segment to its last message)")
+			}
+		})
+	}
+	if n == 0 {
+		c.OK("entries returned by index scanners", "-", "no caller takes the entry result")
+	}
+}
+
+// retainedAcrossIterations reports how v is accumulated (appended to a slice that lives across loop iterations, stored
+// into a map or into a field of a longer-lived object), or "".
+func retainedAcrossIterations(v ssa.Value, depth int) string {
+	if depth > 4 || v.Referrers() == nil {
+		return ""
+	}
+	for _, r := range *v.Referrers() {
+		switch x := r.(type) {
+		case *ssa.Phi:
+			if s := retainedAcrossIterations(x, depth+1); s != "" {
+				return s
+			}
+		case *ssa.MapUpdate:
+			if x.Value == v {
+				return "stored in a map"
+			}
+		case *ssa.Store:
+			if x.Val != v {
+				continue
+			}
+			switch a := x.Addr.(type) {
+			case *ssa.FieldAddr:
+				return "stored in field " + eng.FieldNameOf(a)
+			case *ssa.IndexAddr:
+				// element of a literal / varargs array: follow the slice made from it
+				if arr, ok := a.X.(*ssa.Alloc); ok && arr.Referrers() != nil {
+					for _, ar := range *arr.Referrers() {
+						sl, ok := ar.(*ssa.Slice)
+						if !ok || sl.Referrers() == nil {
+							continue
+						}
+						for _, sr := range *sl.Referrers() {
+							ac, ok := sr.(*ssa.Call)
+							if !ok {
+								continue
+							}
+							if b, ok := ac.Call.Value.(*ssa.Builtin); ok && b.Name() == "append" && len(ac.Call.Args) == 2 && ac.Call.Args[1] == ssa.Value(sl) {
+								// appended to something that is not a fresh literal: a list built over several Scans
+								if _, fresh := ac.Call.Args[0].(*ssa.Const); !fresh {
+									return "appended to a list that outlives the iteration"
+								}
+							}
+						}
+					}
+				} else {
+					return "stored in a slice element"
+				}
+			}
+		}
+	}
+	return ""
+}
+
+// ruleNilMarker (R01.11): byteEncoder.PutBytes writes a nil slice as size -1, so every 32-bit size that the message
+// decoder reads may be the nil marker. A decoded size is added to a position (and so ends up in slice bounds) only
+// behind a test against -1 — keyOffsets and valueOffsets do that; every sibling decoder must too.
+func ruleNilMarker(c *eng.Ctx) {
+	p := c.P
+	n := 0
+	for _, fn := range p.Funcs {
+		if fn.Pkg == nil || fn.Pkg != p.SSAPkg[clPkg] || fn.Signature.Recv() == nil {
+			continue
+		}
+		if rt, ok := fn.Signature.Recv().Type().(*types.Named); !ok || rt.Obj().Name() != "SerializedMessage" {
+			continue
+		}
+		eng.Instrs(fn, func(in ssa.Instruction) {
+			call, ok := in.(*ssa.Call)
+			if !ok || !strings.HasSuffix(eng.CalleeRef(&call.Call), ".Uint32") {
+				return
+			}
+			size := ssa.Value(call)
+			notNil := eng.CmpEdges(fn, eng.Same(size), eng.IntConst(-1), eng.NE)
+			var adds []*ssa.BinOp
+			var walk func(v ssa.Value, d int)
+			walk = func(v ssa.Value, d int) {
+				if d > 3 || v.Referrers() == nil {
+					return
+				}
+				for _, r := range *v.Referrers() {
+					switch x := r.(type) {
+					case *ssa.Convert:
+						walk(x, d+1)
+					case *ssa.BinOp:
+						if x.Op == token.ADD {
+							adds = append(adds, x)
+						}
+					}
+				}
+			}
+			walk(size, 0)
+			for _, a := range adds {
+				n++
+				g, w := eng.GuardedBy(fn, a, notNil)
+				c.Check(g && len(notNil) > 0, "decoded size in "+fn.Name()+" added to a position", c.Pos(a), "only behind size != -1 (the encoder's nil marker)", "a 32-bit size read from the message is added to a position without having been compared with -1 (path "+w.String()+"): the encoder writes a nil byte slice as size -1, so decoding such a field slices m[n : n-1] and panics")
+			}
+		})
+	}
+	if n == 0 {
+		c.Unresolved("size arithmetic in the SerializedMessage decoders")
 	}
 }
